@@ -9,7 +9,7 @@ CONSTANTS
   Addrs <- QAddrs
   Seconds = {"none", "distinct", "dup", "inherited", "blockaddr"}
   Bad = {0, 1, 2, 3, 4}
-  Singles = {"none", "type", "enum", "opaque"}
+  Singles = {"none", "type", "enum", "enumnc", "opaque"}
   EvalKinds = {"none", "scalar", "ptr", "arr", "struct", "missing", "two"}
   Ptrs = {4, 8}
 INVARIANTS Replay
